@@ -247,9 +247,6 @@ func (c *CBC) hmacCID(
 	if _, err := hmacHash.Write(msg.BytesOrPanic()); err != nil {
 		return nil, err
 	}
-	if _, err := hmacHash.Write(payload); err != nil {
-		return nil, err
-	}
 
 	return hmacHash.Sum(nil), nil
 }
